@@ -22,10 +22,13 @@ def to_smt2(assumptions, goal, cover=False):
     return s.to_smt2()
 
 
-def _run_z3(text, timeout_ms):
+def _run_z3(text, timeout_ms, seed=0):
     t0 = time.time()
     s = z3.Solver()
     s.set("timeout", timeout_ms)
+    if seed:
+        s.set("random_seed", seed)
+        z3.set_param("smt.random_seed", seed)
     try:
         s.from_string(text)
         r = s.check()
@@ -78,6 +81,15 @@ def _job(args):
         if r2 in ("sat", "unsat"):
             r, info, backend = r2, info2, "cvc5"
         dt += dt2
+    if r in ("unknown", "error") and not cover:
+        # quantifier instantiation in z3 is sensitive to incidental term order: retry with other seeds
+        # before giving up (a verdict must not flip because of solver luck)
+        for seed in (7, 23):
+            r3, info3, dt3 = _run_z3(text, timeout_ms, seed)
+            dt += dt3
+            if r3 in ("sat", "unsat"):
+                r, info, backend = r3, info3, "z3(seed %d)" % seed
+                break
     return (name, r, info, dt, backend)
 
 
